@@ -1,4 +1,5 @@
 import SockModel.Model.UriSpellLemmas
+import SockModel.Spec.Uri
 import SockModel.Generated.Funcs
 /-!
 # C12  Address text round-trip, canonical accessors and port fidelity
@@ -116,6 +117,26 @@ theorem port_not_wrapped_under_G1 (gai : GaiCall → Option Nat)
   have := no_silent_wrap.1 uri c v hok hv
   rw [G1 c v port hv hg]
   omega
+
+namespace C12
+/-- the predicate `./check C12` evaluates on the implementation's observations (`Spec/Uri.lean`: `specStep`
+in mode `.fidelity` - no numeric service outside 0..65535 reaches `getaddrinfo`; `Port()` is the numeric
+service; `Service()` its decimal text; `to_string` is `host:serv` / `[host]:serv` and parses back to an equal
+Address; every spelling of a literal endpoint is accepted, reports the ground-truth host / port / family and
+all are equal) accepts every trace of the model - `parseUri` / `parseHostServ` / `Addr.toString` over a name
+service `ns` - for EVERY `ns` that satisfies the assumptions G1 / G2 (`NameService.Lawful`; satisfiable:
+`toyNS_lawful`) and every history of any length in the domain `histOk` (`uri` / `pair` with arbitrary byte
+strings; literal groups of addresses the resolver knows by their numeric text, with `\w*` schemes and
+single-line paths; service names the database maps to the port). -/
+theorem spec_holds_on_model {α : Type} [DecidableEq α] (ns : NameService α) (L : ns.Lawful)
+    (history : List (Op α)) (hok : histOk ns history = true) :
+    ∃ s, C12.specRun {} (modelTrace ns history) = .ok s :=
+  C12.model_satisfies_spec ns L history hok
+
+/-- the hypotheses of `spec_holds_on_model` are satisfiable: a concrete resolver is lawful and a history with
+every kind of operation is in the domain -/
+example : toyNS.Lawful ∧ histOk toyNS Demo.history = true := ⟨toyNS_lawful, by decide⟩
+end C12
 
 /-- the pre-fix code (finding F5) did wrap: a numeric scheme is never checked -/
 theorem legacy_wraps_scheme :
